@@ -27,7 +27,7 @@ ASSUMPTIONS = E1_ASSUMPTIONS + [
     "stdout blocks: each page is followed by one or two newline characters (pages end in a newline, so 'one empty line' "
     "is ambiguous by one); order between directories is not constrained",
     "inputs are diagnostic-free by construction (no log line is expected on stdout in stdout mode)"]
-PROBES = ["module_with_crlf", "hidden_directory", "symlinked_module", "input_through_symlink", "output_dir_from_settings_file", "mode_stdout", "mode_o", "out_nested_deep", "out_parent", "out_prepopulated", "out_stale_page", "out_new_ancestors",
+PROBES = ["stdout_twin_nested_in_input", "module_with_crlf", "hidden_directory", "symlinked_module", "input_through_symlink", "output_dir_from_settings_file", "mode_stdout", "mode_o", "out_nested_deep", "out_parent", "out_prepopulated", "out_stale_page", "out_new_ancestors",
           "out_rel", "out_abs", "single_file_input", "stdout_ge_2_pages", "stdout_multi_dir", "config_dir_absent",
           "fault_fired", "fault_run_failed", "settings_affecting_content"]
 
@@ -85,6 +85,14 @@ def strategy(cfg):
                                          "sibling"]))
         if out_kind == "nested_new":
             out = posixpath.join(site.proj, "zz_out")
+            if draw(st.booleans()):
+                # siblings whose names merely start like the output directory's
+                for rel_ in ("zz_out-notes/n9.cmake", "zz_out2/n8.cmake"):
+                    text_ = "#[[[\n# Sibling of the output directory.\n#]]\nfunction(zq_sibling_" + rel_[-7:-6] + " a)\nendfunction()\n"
+                    site.tree[posixpath.dirname(rel_)] = None
+                    site.tree[rel_] = text_
+                    files[posixpath.join(site.proj, posixpath.dirname(rel_))] = None
+                    files[posixpath.join(site.proj, rel_)] = text_
         elif out_kind == "nested_deep" and dirs and auto:
             # only with auto-exclusion on: otherwise the walk descends into its own output for ever (DESIGN.md, C13 note)
             out = posixpath.join(site.proj, draw(st.sampled_from(dirs)), "gen")
@@ -332,10 +340,16 @@ def evaluate(spec, ctx):
                         viols.append(viol("run-failed", f"{where}: status {res.status} exc {res.exc}"))
                     else:
                         # the same invocation with -o added, same listing schedule
-                        overlay2, argv2 = setup_argv(spec, var, with_o=True, out_override="{BASE}/ref_out")
+                        # (into the world's own output placement where that is a new directory inside the input tree,
+                        #  otherwise into a directory beside everything)
+                        twin_out = out if spec["out_kind"] == "nested_new" else "ref_out"
+                        overlay2, argv2 = setup_argv(spec, var, with_o=True, out_override="{BASE}/" + twin_out)
                         r2 = core.run_call(base, dict(call, argv=argv2, faults=[]))
                         ctx.note_call(r2)
-                        ref = core.read_tree(base, "ref_out")
+                        ref = core.read_tree(base, twin_out)
+                        if twin_out == out:
+                            ctx.probes["stdout_twin_nested_in_input"] += 1
+                            remove_outputs(base, [out])
                         pages = {k: v for k, v in ref.items() if posixpath.basename(k) != "index.rst"}
                         if r2.status != 0:
                             viols.append(viol("run-failed", f"{where}: -o twin run status {r2.status} exc {r2.exc}"))
